@@ -109,7 +109,7 @@ fn rec_tri(m: &HashMap<String, String>) {
 }
 
 fn main() {
-    std::panic::set_hook(Box::new(|_| {}));
+    if std::env::var("VH_PANIC_MSG").is_err() { std::panic::set_hook(Box::new(|_| {})); }
     let args: Vec<String> = std::env::args().collect();
     if args.len() < 2 {
         eprintln!("usage: vh <rec-ops|rec-tri|...> [--key value]...");
@@ -131,6 +131,13 @@ fn main() {
             geti(&m, "matrix", 40) as usize, geti(&m, "rid0", 1) as u64),
         "stage-inputs" => stages::stage_inputs(gets(&m, "file", ""), geti(&m, "rid0", 1) as u64, geti(&m, "matrix", 0) as usize, gets(&m, "family", "literal")),
         "float-pi" => stages::float_pi(geti(&m, "count", 1000) as u64, geti(&m, "seed", 1) as u64),
+        "float-pi-exact" => {
+            if m.contains_key("f32") {
+                stages::float_pi_exact::<f32>(geti(&m, "count", 1000) as u64, geti(&m, "seed", 1) as u64)
+            } else {
+                stages::float_pi_exact::<f64>(geti(&m, "count", 1000) as u64, geti(&m, "seed", 1) as u64)
+            }
+        }
         "replay-sweep" => stages::replay_sweep(gets(&m, "file", "")),
         "replay-pi" => {
             let (fr, off, ax, dc) = (geti(&m, "frame", 0) as i32, geti(&m, "offset", 0), m.contains_key("only-axis"), geti(&m, "decoy", 0) as u32);
